@@ -18,6 +18,12 @@ plus
         closed terms: search a valuation in the model SPEC under which the denotations differ
   (semeqty TYINST T0 T1 SPEC BUDGET SEED MAXCOST)    -> idem: T1 in (M, ρ) against T0 in (M.pull σ, ρ.pull σ)
   (semsubst INST T0 T1 SPEC BUDGET SEED MAXCOST)     -> idem: T1 in (M, ρ) against substType σ T0 in (M, instVal ρ inst)
+  (memo DROPALL (EV*))            -> (ok R*) | (stuck K)      memoised hashes and subst_type_inplace
+        EV := (mk A NODE) | (hash A) | (inplace ((n Ty)*) A) | (obs A)
+        (hash A) memoises every object reachable from A; R := (obs CONSISTENT Term|none) for every (obs A):
+        CONSISTENT = the memo at A, if any, is the hash nest of the term A represents now
+  (sbheap KEYDEPTH ((mk A NODE)*) UA S N) -> (ok Term) | (none)
+        subst_bound run on the heap with its cache (Model.lean (e)): argument object UA (closed), body object S, depth N
   (history FIXED (EV*))           -> (ok R*) | (stuck K)
         EV := (mk A NODE) | (wrap A SRC) | (copy (A*) SRC) | (free A) | (eq A B) | (term A)
         NODE := (sv n Ty) | (v n Ty) | (c n Ty) | (ap A A) | (ab x Ty A) | (b i)
@@ -298,6 +304,68 @@ def runEvents (fixed : Bool) : Heap → List Ev → Nat → List Sexp → Except
       | none => .atom "none"
     runEvents fixed h rest (k + 1) (.list [.atom "term", r] :: acc)
 
+inductive MEv where
+  | mk (a : Addr) (n : Node)
+  | hash (a : Addr)
+  | inplace (σ : Ty.TyInst) (a : Addr)
+  | obs (a : Addr)
+
+def mevOf : Sexp → Option MEv
+  | .list [.atom "mk", a, n] => do some (.mk (← a.toNat?) (← nodeOf n))
+  | .list [.atom "hash", a] => do some (.hash (← a.toNat?))
+  | .list [.atom "inplace", .list σ, a] => do some (.inplace (← tyInstOf σ) (← a.toNat?))
+  | .list [.atom "obs", a] => do some (.obs (← a.toNat?))
+  | _ => none
+
+def htreeStr (t : HTree) : String := toString (htreeTo t)
+
+/-! The memo is kept as a table and turned into the model's `Memo` function for every single
+model operation, then tabulated again: a chain of closures `memoise (memoise …)` would look up the
+previous memo twice per level. -/
+def memoOf (l : List (Addr × HTree)) : Memo := fun x => l.lookup x
+
+def tabulate (addrs : List Addr) (m : Memo) : List (Addr × HTree) :=
+  addrs.filterMap fun x => (m x).map (fun v => (x, v))
+
+def runMemo (dropAll : Bool) : Heap → List (Addr × HTree) → List Addr → List MEv → Nat → List Sexp →
+    Except Nat (List Sexp)
+  | _, _, _, [], _, acc => .ok acc.reverse
+  | h, l, addrs, .mk a n :: rest, k, acc =>
+    match alloc h a n with
+    | some h' => runMemo dropAll h' (l.filter (·.1 != a)) (a :: addrs) rest (k + 1) acc
+    | none => .error k
+  | h, l, addrs, .hash a :: rest, k, acc =>
+    let R := reachList h FUEL a []
+    let l' := R.foldl (fun l x => match readTerm h FUEL x with
+      | some t => tabulate addrs (memoise (memoOf l) x t)
+      | none => l) l
+    runMemo dropAll h l' addrs rest (k + 1) acc
+  | h, l, addrs, .inplace σ a :: rest, k, acc =>
+    let R := reachList h FUEL a []
+    if childClosed h R then
+      runMemo dropAll (inplaceHeap σ R h) (tabulate addrs (inplaceMemo dropAll R h (memoOf l))) addrs rest (k + 1) acc
+    else .error k
+  | h, l, addrs, .obs a :: rest, k, acc =>
+    let t := readTerm h FUEL a
+    let consistent := match memoOf l a, t with
+      | some v, some t => htreeStr v == htreeStr (hashTree t)
+      | some _, none => false
+      | none, _ => true
+    let ts := match t with
+      | some t => termTo t
+      | none => .atom "none"
+    runMemo dropAll h l addrs rest (k + 1) (.list [.atom "obs", Sexp.ofBool consistent, ts] :: acc)
+
+/-- (returns an `Option`: a function-valued result would be eta-expanded by the compiler and the
+whole construction re-run at every lookup) -/
+def buildHeap : List MEv → Heap → Option Heap
+  | [], h => some h
+  | .mk a nd :: rest, h =>
+    match alloc h a nd with
+    | some h' => buildHeap rest h'
+    | none => none
+  | _ :: rest, h => buildHeap rest h
+
 def handle (line : String) : String :=
   match Sexp.parse line with
   | some (.list [.atom "hashtree", a]) =>
@@ -351,6 +419,30 @@ def handle (line : String) : String :=
       verdictTo (searchDiff M (x' :: y :: others)
         (fun ρ => sem M (instVal M ρ ins) [] [] x' != sem M ρ [] [] y) bu sd mc)
     | _, _, _, _, _, _, _ => "bad-op"
+  | some (.list [.atom "memo", da, .list evs]) =>
+    match da.toBool?, evs.mapM mevOf with
+    | some dropAll, some es =>
+      match runMemo dropAll Heap.empty [] [] es 0 [] with
+      | .ok rs => toString (Sexp.list (.atom "ok" :: rs))
+      | .error k => toString (Sexp.list [.atom "stuck", Sexp.ofNat k])
+    | _, _ => "bad-op"
+  | some (.list [.atom "sbheap", kd, .list evs, ua, s0, n0]) =>
+    match kd.toBool?, evs.mapM mevOf, ua.toNat?, s0.toNat?, n0.toNat? with
+    | some keyDepth, some es, some u, some sa, some n =>
+      match buildHeap es Heap.empty with
+      | none => "(none)"
+      | some h =>
+      let top := es.foldl (fun t e => match e with
+        | .mk a _ => max t (a + 1)
+        | _ => t) 0
+      let fresh := (List.range 4000).map (· + top)
+      match sbHeap keyDepth u FUEL h [] fresh sa n with
+      | some (h', _, _, r) =>
+        match readTerm h' FUEL r with
+        | some t => toString (Sexp.list [.atom "ok", termTo t])
+        | none => "(none)"
+      | none => "(none)"
+    | _, _, _, _, _ => "bad-op"
   | some (.list [.atom "history", fx, .list evs]) =>
     match fx.toBool?, evs.mapM evOf with
     | some fixed, some es =>
